@@ -177,8 +177,9 @@ func (e *c13env) settle(ch *tds.Channel, cap, taken int) bool {
 	if readerGone() {
 		return false
 	}
-	// between reading the packet and parking in the send lie a map lookup and the read lock: a moment is enough
-	time.Sleep(15 * time.Millisecond)
+	// between reading the packet and parking in the send lie a map lookup and the read lock: wait until the reader
+	// goroutine is seen blocked in the send
+	waitParked("chan send", "tds.(*Channel).WritePacket", ch, hangBound)
 	return true
 }
 
@@ -259,7 +260,7 @@ func runRecvDuring(out caser, kind, cap, mode int, wait bool, narrive int, order
 		first <- r{p, err}
 	}()
 	if wait {
-		time.Sleep(20 * time.Millisecond) // the call is (very probably) parked in its select now
+		waitParked("select", "tds.(*Channel).NextPackage", ch, hangBound) // the call is parked in its select now
 	}
 	feed := func() {
 		for k := 0; k < narrive; k++ {
@@ -651,18 +652,18 @@ func runConnClose(out caser, nchan, cap int, nqueued []int, peer, transport, nfa
 			e.pc.SetFailing(errors.New("temporary failure"), nfail)
 		}
 	}
-	if transport != 0 {
-		// the reader reports every failure; wait until the error queue stops growing (full, or the failures are over)
-		last, stable := -1, 0
-		for i := 0; i < 4000 && stable < 25; i++ {
-			n := e.conn.VerifErrChLen()
-			if n == last && n > 0 {
-				stable++
-			} else {
-				stable = 0
+	if transport != 0 && !(transport == 2 && nfail == 0) {
+		// the reader reports every failure: wait until it is parked on the full error queue, or the scripted failures
+		// are over and it waits for bytes again
+		deadline := time.Now().Add(hangBound)
+		for time.Now().Before(deadline) {
+			if parked("chan send", "tds.(*Conn).ReadFrom", e.conn) {
+				break
 			}
-			last = n
-			time.Sleep(time.Millisecond)
+			if e.pc.FailsLeft() == 0 && e.pc.WaitIdle(time.Millisecond) {
+				break
+			}
+			time.Sleep(500 * time.Microsecond)
 		}
 	}
 	switch precancel {
@@ -699,7 +700,7 @@ func runConnClose(out caser, nchan, cap int, nqueued []int, peer, transport, nfa
 	case <-time.After(bound):
 	}
 	gok := int64(0)
-	for i := 0; i < 400; i++ {
+	for i := 0; i < 1200 && readerEnded == 1; i++ { // (the reader goroutine itself is one of those counted)
 		if runtime.NumGoroutine() <= base {
 			gok = 1
 			break
@@ -753,7 +754,8 @@ func runCloseWaits(out caser, variant int, cancelAfter bool, bound time.Duration
 		p, err := ch.NextPackage(ctx, true)
 		cons <- r{p, err}
 	}()
-	time.Sleep(30 * time.Millisecond) // the consumer is parked in its select now, holding the channel's read lock
+	// wait until the consumer is parked in its select, holding the channel's read lock
+	waitParked("select", "tds.(*Channel).NextPackage", ch, hangBound)
 	closed := make(chan struct{})
 	go func() {
 		defer func() { recover(); close(closed) }()
